@@ -133,6 +133,31 @@ func TestC07(t *testing.T) {
 			})
 		}
 	}
+	// both implementations left at their own defaults (nothing assigns the link width here): the
+	// same file has to come out under the same CID
+	for _, n := range []int{1, 174, 175, 349, 174*174 + 1} {
+		n := n
+		r.Case(fmt.Sprintf("defaults/chunks%d", n), map[string]any{"chunks": n, "chunker": "size-1", "width": "library default vs reference default"}, func(c *mon.Case) {
+			content := gen.Content(c.Rand(), "rand", n)
+			st, ref := store.New(), store.New()
+			l, size, err := builder.BuildUnixFSFile(bytes.NewReader(content), "size-1", st.LinkSystem(false))
+			if err != nil {
+				c.Violation("C07|build-error", "BuildUnixFSFile at default width: %v", err)
+				return
+			}
+			rroot, rsize, err := oracle.RefImport(ref, bytes.NewReader(content), "size-1", oracle.RefDefaultWidth, oracle.ImportMode{Layout: "balanced", RawLeaves: true, CidV1: true})
+			if err != nil {
+				c.Harness("reference importer: %v", err)
+				return
+			}
+			c.Count("compared", 1)
+			c.Count("compared_at_default_widths", 1)
+			if !linkCid(l).Equals(rroot) || size != rsize {
+				c.Violation("C07|root-differs|defaults", "%d one-byte chunks with both implementations at their default link width (library %d, reference %d): builder (%s, %d), reference (%s, %d); %s", n, builder.DefaultLinksPerBlock, oracle.RefDefaultWidth, l, size, rroot, rsize, firstDagDifference(walkerFor(st), walkerFor(ref), linkCid(l), rroot, "root", 0))
+			}
+			c.Sig(fmt.Sprintf("defaults|%s", sizeClass(n)), n >= 2)
+		})
+	}
 	// a source that fails after delivering part of the content: the reference importer reports the
 	// error, so must the builder (whatever the kind of error, including ones that wrap io.EOF)
 	for i, kind := range []error{store.ErrInjected, fmt.Errorf("source truncated: %w", io.EOF), io.ErrUnexpectedEOF, fmt.Errorf("wrapped: %w", io.ErrUnexpectedEOF), io.ErrClosedPipe} {
